@@ -142,7 +142,7 @@ theorem twoStage_closed_form_regimes {s ts pd0 md : ℝ} (hmd : 0 < md) (hpd : 0
       rw [sub_lt_iff_lt_add, div_lt_iff₀ ha]; nlinarith
     rw [W_cross hw1 this]
     congr 2
-    rw [hpa]; field_simp; ring
+    rw [hpa]; field_simp; ring_nf
   · intro h
     have hw1 : (1 - s) / a ≤ 1 := by rw [div_le_iff₀ ha]; linarith
     rw [W_ramp hw1]; field_simp
